@@ -267,6 +267,25 @@ func corruptRecord(raw []byte, kind string, p1, p2 int) ([]byte, bool) {
 			return nil, false
 		}
 		return withStamp(pk[:p1]), true
+	case "sflip":
+		// the p1-th container-constructor opcode becomes the constructor of another container kind: an empty tuple an empty
+		// list or dict, an empty list a tuple, ... - the record still decodes, to an environment of another shape
+		pk := stampBytes()
+		if pk == nil {
+			return nil, false
+		}
+		flips := map[byte][]byte{')': {']', '}'}, ']': {')', '}'}, '}': {']', ')'}}
+		k := 0
+		for i, b := range pk {
+			if alts, ok := flips[b]; ok {
+				if k == p1 {
+					pk[i] = alts[p2%len(alts)]
+					return withStamp(pk), true
+				}
+				k++
+			}
+		}
+		return nil, false
 	case "ssplice":
 		pk := stampBytes()
 		if pk == nil || len(pk) < 2 {
@@ -529,6 +548,18 @@ func c15Records(c *core.Ctx) {
 			for k := 0; k <= 10; k++ {
 				add(fmt.Sprintf("rec/%d/ssplice/%d/0", fi, k))
 			}
+			nflip := 0
+			for _, b := range pk {
+				if b == ')' || b == ']' || b == '}' {
+					nflip++
+				}
+			}
+			if nflip > c.N(40, 100000) {
+				nflip = c.N(40, 100000)
+			}
+			for k := 0; k < nflip; k++ {
+				add(fmt.Sprintf("rec/%d/sflip/%d/%d", fi, k, k%2))
+			}
 		}
 	}
 	idx, _ := os.ReadFile(filepath.Join(root, ".dawn", "build", "index.json"))
@@ -566,5 +597,5 @@ func c15Records(c *core.Ctx) {
 			}
 			c.Violation(caseID, "", "corrupted-record-crashes-the-process:"+r.FatalKind(), map[string]any{"stderr": headLinesStr(r.Stderr, 30)})
 		}})
-	c.Sample(map[string]any{"kind": "record corruption case ids", "value": []string{"rec/<record>/jtrunc/<len>", "rec/<record>/jsub/<pos>/<byte>", "rec/<record>/jwhole/<k>", "rec/<record>/ssub/<pos>/<byte> (inside the pickled stamp)", "rec/<record>/strunc/<len>", "rec/<record>/ssplice/<k>", "rec/<record>/depstamp/<k>/<how>", "irec/... (the same record corruptions met by an index-preferring load)", "idx/... (index.json with an index-preferring load)"}})
+	c.Sample(map[string]any{"kind": "record corruption case ids", "value": []string{"rec/<record>/jtrunc/<len>", "rec/<record>/jsub/<pos>/<byte>", "rec/<record>/jwhole/<k>", "rec/<record>/ssub/<pos>/<byte> (inside the pickled stamp)", "rec/<record>/strunc/<len>", "rec/<record>/ssplice/<k>", "rec/<record>/sflip/<k>/<alt> (container constructor flipped to another kind)", "rec/<record>/depstamp/<k>/<how>", "irec/... (the same record corruptions met by an index-preferring load)", "idx/... (index.json with an index-preferring load)"}})
 }
